@@ -202,6 +202,33 @@ def r3(chk, prog):
             back = any((h, 0) in seen for h in hdrs if h is not None)
             found = found or (not rets and not back)
         chk.check(found, 'R3', f.name, '%s in two handlers end in an exception' % what, f.loc())
+    # ... and each of the two comparisons relates a key of the own container with a key of the OTHER one (a key
+    # compared with itself never mismatches)
+    lvars = []
+    for l in loops:
+        if l.get('k') == 'CXXForRangeStmt':
+            lv = children(l)[1]['decls'][0]['name']
+            rng = children(l)[0]
+            lvars.append((lv, 'other' if any(x.get('k') == 'DeclRefExpr' and x['ref'].get('sto') == 'param'
+                                             for x in walk(rng)) else 'own'))
+    chk.require(sorted(k for _, k in lvars) == ['other', 'own'], 'checkArgMix: loops over the own and the other '
+                'container not recognised: %s' % lvars)
+    kind_of = dict(lvars)
+    n_cmp = 0
+    for c in f.calls():
+        is_eq = (c.get('k') == 'CXXOperatorCallExpr' and c.get('op') == '==' and
+                 any('ArgumentKey' in (x.get('t') or '') for x in children(c)))
+        is_mm = callee_is(c, 'ArgumentKey::mismatch')
+        if not (is_eq or is_mm):
+            continue
+        ops = call_args(c) if is_eq else [object_of(c)] + call_args(c)
+        sides = [{kind_of[x['ref'].get('name')] for x in walk(o) if x.get('k') == 'DeclRefExpr' and
+                  x['ref'].get('name') in kind_of} for o in ops if o is not None]
+        n_cmp += 1
+        chk.check(len(sides) == 2 and sides[0] != sides[1] and all(len(s_) == 1 for s_ in sides), 'R3', f.name,
+                  '%s relates a key of this container with a key of the other' % ('operator==' if is_eq else 'mismatch()'),
+                  f.loc(c), 'operands refer to %s' % [sorted(s_) for s_ in sides])
+    chk.require(n_cmp >= 2, 'checkArgMix: key comparisons found: %d' % n_cmp)
 
 
 def r4_membership_flag(chk, prog):
